@@ -1,0 +1,13 @@
+//go:build verif
+
+package example
+
+import "github.com/hneemann/parser2/funcGen"
+
+// Verification hooks (add-only, compiled only with -tags verif): the two example generators.
+
+// VerifBoolParser returns the generator of bool.go.
+func VerifBoolParser() *funcGen.FunctionGenerator[bool] { return boolParser }
+
+// VerifMinimal returns the generator of minimal.go.
+func VerifMinimal() *funcGen.FunctionGenerator[float64] { return minimal }
